@@ -276,14 +276,14 @@ Section Enclose.
 
   (* one axis of the voxel index of a point *)
   Lemma axis_lo (glo pd eps s x : R) : 0 < s -> 0 <= pd -> 0 <= eps -> glo <= x ->
-    (0 <= raw_idx1 NumR Zfloor (glo - pd - eps) s x)%Z.
+    (0 <= raw_idx1 NumR Zfloor (glo - pd - eps)%R s x)%Z.
   Proof.
     intros Hs Hp He Hx. unfold raw_idx1. cbn [nsub ndiv NumR]. apply Zfloor_nonneg.
     apply Rle_mult_inv_pos; lra.
   Qed.
 
   Lemma axis_hi (glo ghi pd eps s x : R) : 0 < s -> 0 < pd -> x <= ghi - pd ->
-    (raw_idx1 NumR Zfloor (glo - pd - eps) s x < count1 NumR Zceil eps (glo - pd) ghi s)%Z.
+    (raw_idx1 NumR Zfloor (glo - pd - eps)%R s x < count1 NumR Zceil eps (glo - pd)%R ghi s)%Z.
   Proof.
     intros Hs Hp Hx. unfold raw_idx1, count1. cbn [nadd nsub ndiv NumR].
     set (a := (x - (glo - pd - eps)) / s). set (b := (ghi + eps - (glo - pd)) / s).
@@ -303,7 +303,8 @@ Section GridRange.
 
   Notation padR := (pad NumR cut_adh cut_rep).
   Notation sR := (vsize NumR lmin cut_adh cut_rep).
-  Definition gfold : boxR := fold_left gstep boxes (mkbox (mkv inf inf inf) (mkv (- inf) (- inf) (- inf))).
+  Definition gacc0 : boxR := mkbox (mkv inf inf inf) (mkv (- inf) (- inf) (- inf)).
+  Definition gfold : boxR := fold_left gstep boxes gacc0.
   Definition the_grid : dims (T:=R) := grid_of NumR Zceil eps lmin cut_adh cut_rep (global_box NumR inf cut_adh cut_rep boxes).
 
   Lemma the_grid_eq : the_grid =
@@ -324,7 +325,7 @@ Section GridRange.
     forall v, In v (box_voxels NumR Zfloor the_grid b) -> in_range the_grid v = true.
   Proof using Heps Hlmin Hadh Hrep.
     intros Hb [[x y] z] Hv.
-    destruct (proj2 (gfold_encl boxes _) b Hb) as (Lx & Ly & Lz & _). fold gfold in Lx, Ly, Lz.
+    destruct (proj2 (gfold_encl boxes gacc0) b Hb) as (Lx & Ly & Lz & _). fold gfold in Lx, Ly, Lz.
     pose proof pad_pos as Hp. pose proof vsize_pos as Hs.
     pose proof (axis_lo (vx (b_lo gfold)) padR eps sR (vx (b_lo b)) Hs (Rlt_le _ _ Hp) Heps Lx) as Ax.
     pose proof (axis_lo (vy (b_lo gfold)) padR eps sR (vy (b_lo b)) Hs (Rlt_le _ _ Hp) Heps Ly) as Ay.
@@ -341,7 +342,7 @@ Section GridRange.
     pos = p1 \/ pos = p2 \/ pos = p3 -> in_range the_grid (raw3 NumR Zfloor the_grid pos) = true.
   Proof using Heps Hlmin Hadh Hrep.
     intros Hb Hpos.
-    destruct (proj2 (gfold_encl boxes _) _ Hb) as (Lx & Ly & Lz & Ux & Uy & Uz).
+    destruct (proj2 (gfold_encl boxes gacc0) _ Hb) as (Lx & Ly & Lz & Ux & Uy & Uz).
     fold gfold in Lx, Ly, Lz, Ux, Uy, Uz. cbn [face_box b_lo b_hi vx vy vz nsub nadd NumR] in Lx, Ly, Lz, Ux, Uy, Uz.
     pose proof pad_pos as Hp. pose proof vsize_pos as Hs.
     destruct (min3_le (vx p1) (vx p2) (vx p3)) as (mx1 & mx2 & mx3).
@@ -382,3 +383,291 @@ Section GridRange.
     - exists r. exact Er.
   Qed.
 End GridRange.
+
+(* ================================================================ 5. well-formed tissues *)
+Definition wf_tissue_ (st : Contact.state (T:=R)) : Prop :=
+  st <> [] /\
+  (forall i c, nth_error st i = Some c -> cc_local c = i /\ cc_faces c <> [] /\
+     (forall f, In f (cc_faces c) -> (cf_n1 f < length (cc_nodes c) /\ cf_n2 f < length (cc_nodes c) /\ cf_n3 f < length (cc_nodes c))%nat) /\
+     (forall k n, nth_error (cc_nodes c) k = Some n -> cn_used n = true ->
+        exists f, In f (cc_faces c) /\ (cf_n1 f = k \/ cf_n2 f = k \/ cf_n3 f = k))).
+
+(* what the phase needs of the prepared state *)
+Definition wfs (st : stateR) : Prop :=
+  forall i c, nth_error st i = Some c -> cc_local c = i /\
+     (forall f, In f (cc_faces c) -> (cf_n1 f < length (cc_nodes c) /\ cf_n2 f < length (cc_nodes c) /\ cf_n3 f < length (cc_nodes c))%nat) /\
+     (forall k n, nth_error (cc_nodes c) k = Some n -> cn_used n = true ->
+        exists f, In f (cc_faces c) /\ (cf_n1 f = k \/ cf_n2 f = k \/ cf_n3 f = k)).
+
+Section Reset.
+  Variable dmax : R.
+
+  Lemma reset_node_used (n : cnodeR) : cn_used (reset_node dmax n) = cn_used n.
+  Proof. unfold reset_node. destruct (cn_used n) eqn:E; exact E. Qed.
+
+  Lemma wf_reset (st : stateR) : wf_tissue_ st -> wfs (reset_state dmax st).
+  Proof.
+    intros [_ Hwf] i c' Hc'. unfold reset_state in Hc'. apply nth_error_map_inv in Hc'.
+    destruct Hc' as [c [Hc E]]. subst c'. cbn [cc_local cc_nodes cc_faces].
+    destruct (Hwf i c Hc) as (L & _ & F & U). split; [exact L |]. split.
+    - intros f Hf. rewrite map_length. exact (F f Hf).
+    - intros k n' Hn' Hu. apply nth_error_map_inv in Hn'. destruct Hn' as [n [Hn E]]. subst n'.
+      rewrite reset_node_used in Hu. exact (U k n Hn Hu).
+  Qed.
+
+  Lemma reset_cpl_ok (st : stateR) : cpl_ok (reset_state dmax st).
+  Proof.
+    intros ci c' ni n' c2i n2i Hc Hn Hu Hcp. exfalso.
+    unfold reset_state in Hc. apply nth_error_map_inv in Hc. destruct Hc as [c [Hc E]]. subst c'.
+    cbn [cc_nodes] in Hn. apply nth_error_map_inv in Hn. destruct Hn as [n [Hn E]]. subst n'.
+    rewrite reset_node_used in Hu. unfold reset_node in Hcp. rewrite Hu in Hcp.
+    cbn [set_cpl cn_cpl] in Hcp. discriminate Hcp.
+  Qed.
+End Reset.
+
+(* ================================================================ 6. the stages of the phase *)
+Section PhaseTotal.
+  Variables (eps dmax inf c45 c90 lmin cut_adh cut_rep : R).
+  Hypothesis Heps : 0 <= eps.
+  Hypothesis Hlmin : 0 < lmin.
+  Hypothesis Hadh : 0 < cut_adh.
+  Hypothesis Hrep : 0 < cut_rep.
+
+  Variable st1 : stateR.
+  Hypothesis Hwfs : wfs st1.
+
+  Notation gfs := (gfaces st1).
+  Notation tryR := (try_face NumR dmax c45 c90 cut_adh cut_rep).
+  Notation resolveR := (resolve_contact NumR dmax c45 cut_adh cut_rep).
+
+  (* ---- prepare *)
+  Lemma boxes_total : exists boxes, all_some (map (face_box_of NumR cut_adh cut_rep st1) gfs) = Some boxes.
+  Proof using Hwfs.
+    apply all_some_total. intros [ci f] Hin.
+    destruct (gfaces_in st1 ci f Hin) as [cA [HA Hf]].
+    destruct (Hwfs ci cA HA) as (_ & Hfaces & _). destruct (Hfaces f Hf) as (F1 & F2 & F3).
+    destruct (nth_error_lt_some _ _ F1) as [a1 E1]. destruct (nth_error_lt_some _ _ F2) as [a2 E2].
+    destruct (nth_error_lt_some _ _ F3) as [a3 E3].
+    unfold face_box_of, node_pos. rewrite HA, E1, E2, E3. cbn [option_map]. eexists. reflexivity.
+  Qed.
+
+  Variable boxes : list boxR.
+  Hypothesis Hboxes : all_some (map (face_box_of NumR cut_adh cut_rep st1) gfs) = Some boxes.
+  Notation grd := (the_grid eps inf lmin cut_adh cut_rep boxes).
+  Variable sto : list (list nat).
+  Hypothesis Hreg : register NumR Zfloor grd boxes = Some sto.
+  Notation candsR := (candidates NumR Zfloor grd sto).
+
+  Lemma boxes_len : length boxes = length gfs.
+  Proof using Hboxes. rewrite (all_some_length _ _ Hboxes), map_length. reflexivity. Qed.
+
+  (* ---- the voxel of a node that belongs to a face *)
+  Lemma cands_total ci cA f ni nA : nth_error st1 ci = Some cA -> In f (cc_faces cA) ->
+    cf_n1 f = ni \/ cf_n2 f = ni \/ cf_n3 f = ni -> nth_error (cc_nodes cA) ni = Some nA ->
+    exists l, candsR (cn_pos nA) = Some l.
+  Proof using Heps Hlmin Hadh Hrep Hboxes.
+    intros HA Hf Hv HnA.
+    pose proof (gfaces_in_conv st1 ci cA f HA Hf) as Hin.
+    destruct (all_some_in _ _ _ _ Hboxes Hin) as [b [Eb Hb]].
+    unfold face_box_of, node_pos in Eb. rewrite HA in Eb.
+    destruct (nth_error (cc_nodes cA) (cf_n1 f)) as [a1 |] eqn:E1; cbn [option_map] in Eb; [| discriminate Eb].
+    destruct (nth_error (cc_nodes cA) (cf_n2 f)) as [a2 |] eqn:E2; cbn [option_map] in Eb; [| discriminate Eb].
+    destruct (nth_error (cc_nodes cA) (cf_n3 f)) as [a3 |] eqn:E3; cbn [option_map] in Eb; [| discriminate Eb].
+    injection Eb as Eb. subst b.
+    assert (Hpos : cn_pos nA = cn_pos a1 \/ cn_pos nA = cn_pos a2 \/ cn_pos nA = cn_pos a3).
+    { destruct Hv as [E | [E | E]].
+      - rewrite E in E1. left. congruence.
+      - rewrite E in E2. right. left. congruence.
+      - rewrite E in E3. right. right. congruence. }
+    unfold candidates. cbv zeta.
+    rewrite (vertex_in_range eps inf lmin cut_adh cut_rep Heps Hlmin Hadh Hrep boxes _ _ _ _ Hb Hpos).
+    eexists. reflexivity.
+  Qed.
+
+  (* ---- the invariant of the node loop *)
+  Definition NInv (s : stateR) : Prop := sk s = sk st1 /\ cpl_ok s.
+
+  Lemma NInv_cell s i cA : NInv s -> nth_error st1 i = Some cA ->
+    exists c, nth_error s i = Some c /\ cc_local c = i /\ map nsk (cc_nodes c) = map nsk (cc_nodes cA).
+  Proof using Hwfs.
+    intros [Hsk _] HA. destruct (sk_cell st1 s i cA (eq_sym Hsk) HA) as [c [Hc [E1 E2]]].
+    exists c. split; [exact Hc |]. split; [| exact E2]. rewrite E1. exact (proj1 (Hwfs i cA HA)).
+  Qed.
+
+  Lemma NInv_local s i c : NInv s -> nth_error s i = Some c -> cc_local c = i.
+  Proof using Hwfs.
+    intros [Hsk _] Hc. destruct (sk_cell s st1 i c Hsk Hc) as [cA [HA [E1 _]]].
+    rewrite <- E1. exact (proj1 (Hwfs i cA HA)).
+  Qed.
+
+  Lemma NInv_valid s i k cA : NInv s -> nth_error st1 i = Some cA -> (k < length (cc_nodes cA))%nat -> valid s i k.
+  Proof using Hwfs.
+    intros HI HA Hk. destruct (NInv_cell s i cA HI HA) as [c [Hc [_ E]]].
+    destruct (nth_error_lt_some (cc_nodes c) k) as [n Hn]; [rewrite (nsk_len _ _ E); exact Hk |].
+    exists c, n. split; assumption.
+  Qed.
+
+  Lemma NInv_upd_keep s ci ni f : NInv s -> (forall n, nsk (f n) = nsk n) -> (forall n, cn_cpl (f n) = cn_cpl n) ->
+    NInv (upd_node s ci ni f).
+  Proof.
+    intros [H1 H2] Hn Hc. split; [rewrite sk_upd_node by exact Hn; exact H1 |].
+    apply cpl_ok_upd_keep; [exact H2 | | exact Hc].
+    intros n. pose proof (Hn n) as E. unfold nsk in E. injection E as E _. exact E.
+  Qed.
+
+  Lemma apply_forces_NInv s c1i n1i c2i f r : NInv s ->
+    exists s', apply_forces s c1i n1i c2i f r = Some s' /\ NInv s'.
+  Proof.
+    intros HI. unfold apply_forces. destruct r as [[[[fn fa] fb] fc] |].
+    - cbv zeta. eexists. split; [reflexivity |].
+      apply NInv_upd_keep; [| intros n; reflexivity | intros n; reflexivity].
+      apply NInv_upd_keep; [| intros n; reflexivity | intros n; reflexivity].
+      apply NInv_upd_keep; [| intros n; reflexivity | intros n; reflexivity].
+      apply NInv_upd_keep; [exact HI | intros n; reflexivity | intros n; reflexivity].
+    - exists s. split; [reflexivity | exact HI].
+  Qed.
+
+  Lemma resolve_total s c1i n1i c2i f : NInv s ->
+    valid s c1i n1i -> valid s c2i (cf_n1 f) -> valid s c2i (cf_n2 f) -> valid s c2i (cf_n3 f) ->
+    exists s', resolveR s c1i n1i (c2i, f) = Some s' /\ NInv s'.
+  Proof using Hwfs.
+    intros HI [c1 [n1 [Ec1 En1]]] [c2 [a [Ec2 Ea]]] [c2b [b [Ec2b Eb]]] [c2c [c [Ec2c Ec]]].
+    assert (E2b : c2b = c2) by congruence. subst c2b. assert (E2c : c2c = c2) by congruence. subst c2c.
+    pose proof (NInv_local s c1i c1 HI Ec1) as L1. pose proof (NInv_local s c2i c2 HI Ec2) as L2.
+    pose proof (apply_forces_NInv s c1i n1i c2i f
+      (interaction NumR cut_adh cut_rep (cn_pos n1) (cn_pos a) (cn_pos b) (cn_pos c) (cf_normal f) (cf_area f) (cf_rep f) (cc_type c1) (cc_type c2)) HI) as FB.
+    unfold resolve_contact. rewrite Ec1, Ec2, En1, Ea, Eb, Ec. cbv zeta.
+    destruct (Nat.eqb (cc_type c1) 0 && Nat.eqb (cc_type c2) 0); [| exact FB].
+    destruct (cpl_choice NumR dmax c45 n1 a b c (cf_n1 f) (cf_n2 f) (cf_n3 f) (cc_maxcurv c1)) as [n2i d] eqn:Ech.
+    destruct (nltb NumR d (cut2_adh NumR cut_adh) && nltb NumR d (cn_sqd n1)); [| exact FB].
+    eexists. split; [reflexivity |]. rewrite L1, L2.
+    assert (V2 : valid s c2i n2i).
+    { destruct (cpl_choice_idx _ _ _ _ _ _ _ _ _ _ _ _ Ech) as [E | [E | E]]; subst n2i;
+        [exists c2, a | exists c2, b | exists c2, c]; split; assumption. }
+    destruct HI as [H1 H2]. split.
+    - rewrite !sk_upd_node by (intros n; reflexivity). exact H1.
+    - apply cpl_ok_upd_set; [apply cpl_ok_upd_set; [exact H2 | exact V2] |].
+      apply valid_upd. exists c1, n1. split; assumption.
+  Qed.
+
+  Lemma try_total s ci ni cA fid : NInv s -> nth_error st1 ci = Some cA -> (ni < length (cc_nodes cA))%nat ->
+    (fid < length boxes)%nat -> exists s', tryR boxes gfs ci ni (Some s) fid = Some s' /\ NInv s'.
+  Proof using Hwfs Hboxes.
+    intros HI HA Hni Hfid.
+    pose proof (NInv_valid s ci ni cA HI HA Hni) as V0.
+    destruct V0 as [c1 [n1 [Ec1 En1]]].
+    destruct (nth_error_lt_some boxes fid Hfid) as [bx Ebx].
+    destruct (nth_error_lt_some gfs fid) as [[c2i f] Egf]; [rewrite <- boxes_len; exact Hfid |].
+    destruct (gfaces_in st1 c2i f (nth_error_In _ _ Egf)) as [cB [HB Hf]].
+    destruct (Hwfs c2i cB HB) as (_ & Hfaces & _). destruct (Hfaces f Hf) as (F1 & F2 & F3).
+    pose proof (NInv_valid s c2i _ cB HI HB F1) as V1.
+    pose proof (NInv_valid s c2i _ cB HI HB F2) as V2.
+    pose proof (NInv_valid s c2i _ cB HI HB F3) as V3.
+    pose proof V1 as V1'. destruct V1' as [c2 [a [Ec2 _]]].
+    unfold try_face. rewrite Ec1, Egf, Ebx. cbn [fst snd]. rewrite Ec2, En1.
+    destruct (negb (Nat.eqb (cc_id c1) (cc_id c2))); [| exists s; split; [reflexivity | exact HI]].
+    destruct (in_box NumR bx (cn_pos n1) && nltb NumR (vdot NumR (cn_normal n1) (cf_normal f)) c90);
+      [| exists s; split; [reflexivity | exact HI]].
+    apply resolve_total; try assumption. exists c1, n1. split; assumption.
+  Qed.
+
+  Lemma inner_total ci cA s ni : nth_error st1 ci = Some cA -> NInv s -> (ni < length (cc_nodes cA))%nat ->
+    exists s', innerF dmax c45 c90 cut_adh cut_rep candsR boxes gfs ci (Some s) ni = Some s' /\ NInv s'.
+  Proof using Heps Hlmin Hadh Hrep Hwfs Hboxes Hreg.
+    intros HA HI Hni.
+    destruct (NInv_cell s ci cA HI HA) as [c [Ec [_ Esk]]].
+    destruct (nth_error_lt_some (cc_nodes c) ni) as [n En]; [rewrite (nsk_len _ _ Esk); exact Hni |].
+    unfold innerF. rewrite Ec, En.
+    destruct (node_active NumR c n) eqn:Eact; [| exists s; split; [reflexivity | exact HI]].
+    unfold node_active in Eact. apply andb_true_iff in Eact. destruct Eact as [Hused _].
+    destruct (nsk_node (cc_nodes c) (cc_nodes cA) ni n (eq_sym Esk) En) as [nA [HnA [Eused Epos]]].
+    destruct (Hwfs ci cA HA) as (_ & _ & Hbelongs).
+    destruct (Hbelongs ni nA HnA (eq_trans Eused Hused)) as [f [Hf Hv]].
+    destruct (cands_total ci cA f ni nA HA Hf Hv HnA) as [l El]. rewrite Epos in El. rewrite El.
+    apply (fold_opt_total (tryR boxes gfs ci ni) NInv (fun fid => (fid < length boxes)%nat)).
+    - intros s0 fid H0 Hfid. exact (try_total s0 ci ni cA fid H0 HA Hni Hfid).
+    - exact HI.
+    - intros fid Hfid. exact (desc_lt _ _ _ (once_core grd boxes sto _ l Hreg El) Hfid).
+  Qed.
+
+  Lemma outer_total s ci : NInv s -> (ci < length st1)%nat ->
+    exists s', outerF dmax c45 c90 cut_adh cut_rep candsR boxes gfs (Some s) ci = Some s' /\ NInv s'.
+  Proof using Heps Hlmin Hadh Hrep Hwfs Hboxes Hreg.
+    intros HI Hci. destruct (nth_error_lt_some st1 ci Hci) as [cA HA].
+    destruct (NInv_cell s ci cA HI HA) as [c0 [Ec0 [_ Esk]]].
+    unfold outerF. rewrite Ec0.
+    apply (fold_opt_total (innerF dmax c45 c90 cut_adh cut_rep candsR boxes gfs ci) NInv
+                          (fun ni => (ni < length (cc_nodes cA))%nat)).
+    - intros s0 ni H0 Hni. exact (inner_total ci cA s0 ni HA H0 Hni).
+    - exact HI.
+    - intros ni Hni. apply in_seq in Hni. rewrite (nsk_len _ _ Esk) in Hni. lia.
+  Qed.
+
+  Hypothesis Hcpl1 : cpl_ok st1.
+
+  Lemma node_loop_total :
+    exists st2, node_loop NumR dmax c45 c90 cut_adh cut_rep candsR boxes gfs st1 = Some st2 /\ NInv st2.
+  Proof using Heps Hlmin Hadh Hrep Hwfs Hboxes Hreg Hcpl1.
+    rewrite node_loop_eq.
+    apply (fold_opt_total (outerF dmax c45 c90 cut_adh cut_rep candsR boxes gfs) NInv (fun ci => (ci < length st1)%nat)).
+    - intros s ci HI Hci. exact (outer_total s ci HI Hci).
+    - split; [reflexivity | exact Hcpl1].
+    - intros ci Hci. apply in_seq in Hci. lia.
+  Qed.
+End PhaseTotal.
+
+(* ================================================================ 7. the second loop: coupled pairs *)
+Section Centre.
+  Variable s0 : stateR.
+  Definition CInv (s : stateR) : Prop := lens s = lens s0 /\ cpl_ok s.
+
+  Lemma centre_total : cpl_ok s0 -> exists r, centre_pairs NumR s0 = Some r.
+  Proof.
+    intros H0. unfold centre_pairs.
+    match goal with |- exists r, fold_left ?ff ?ll (Some ?ss) = Some r =>
+      destruct (fold_opt_total ff CInv (fun ci => (ci < length s0)%nat)) with (l := ll) (s := ss) as [r [Er _]]
+    end.
+    - intros s ci HS Hci. cbv beta.
+      destruct (nth_error_lt_some s0 ci Hci) as [cA HA].
+      destruct (lens_cell s s0 ci cA (proj1 HS) HA) as [c0 [Ec0 El0]]. rewrite Ec0.
+      match goal with |- exists s', fold_left ?ff ?ll (Some ?ss) = Some s' /\ _ =>
+        apply (fold_opt_total ff CInv (fun ni => (ni < length (cc_nodes cA))%nat))
+      end.
+      + intros s2 ni H2 Hni. cbv beta.
+        destruct (lens_cell s2 s0 ci cA (proj1 H2) HA) as [c [Ec Elc]]. rewrite Ec.
+        destruct (nth_error_lt_some (cc_nodes c) ni) as [n En]; [lia |]. rewrite En.
+        destruct (cn_used n) eqn:Eu; [| exists s2; split; [reflexivity | exact H2]].
+        destruct (cn_cpl n) as [[c2i n2i] |] eqn:Ecp; [| exists s2; split; [reflexivity | exact H2]].
+        destruct (Nat.ltb c2i ci); [| exists s2; split; [reflexivity | exact H2]].
+        destruct (proj2 H2 ci c ni n c2i n2i Ec En Eu Ecp) as [c2 [n2 [Ec2 En2]]].
+        rewrite Ec2, En2. cbv zeta. eexists. split; [reflexivity |].
+        destruct H2 as [L C]. split; [rewrite !lens_upd_node; exact L |].
+        apply cpl_ok_upd_keep; [| intros x; reflexivity | intros x; reflexivity].
+        apply cpl_ok_upd_keep; [exact C | intros x; reflexivity | intros x; reflexivity].
+      + exact HS.
+      + intros ni Hni. apply in_seq in Hni. lia.
+    - split; [reflexivity | exact H0].
+    - intros ci Hci. apply in_seq in Hci. lia.
+    - exists r. exact Er.
+  Qed.
+End Centre.
+
+(* ================================================================ 8. the phase *)
+Theorem contact_phase_total : forall (eps dmax inf c45 c90 lmin cut_adh cut_rep : R) st,
+  0 <= eps -> 0 < lmin -> 0 < cut_adh -> 0 < cut_rep -> wf_tissue_ st ->
+  contact_phase NumR Zfloor Zceil eps dmax inf c45 c90 lmin cut_adh cut_rep st <> None.
+Proof.
+  intros eps dmax inf c45 c90 lmin cut_adh cut_rep st Heps Hlmin Hadh Hrep Hwf.
+  pose proof (wf_reset dmax st Hwf) as Hwfs.
+  pose proof (reset_cpl_ok dmax st) as Hcpl.
+  destruct (boxes_total cut_adh cut_rep (reset_state dmax st) Hwfs) as [boxes Hboxes].
+  destruct (register_total eps inf lmin cut_adh cut_rep Heps Hlmin Hadh Hrep boxes) as [sto Hreg].
+  destruct (node_loop_total eps dmax inf c45 c90 lmin cut_adh cut_rep Heps Hlmin Hadh Hrep
+              (reset_state dmax st) Hwfs boxes Hboxes sto Hreg Hcpl) as [st2 [E2 [_ C2]]].
+  destruct (centre_total st2 C2) as [r Er].
+  unfold contact_phase, prepare. cbv zeta. rewrite Hboxes. cbn [p_grid p_boxes p_gfs p_state].
+  unfold the_grid in Hreg, E2. rewrite Hreg, E2, Er. cbn [option_map]. discriminate.
+Qed.
+
+Print Assumptions safe_prog_sound.
+Print Assumptions contact_phase_total.
